@@ -1187,5 +1187,6 @@ def extra(tier, seed, results):
     return {"sub_monitors": sub, "starving_sub_monitors": starving,
             "unreached": ["unyt_array.write_hdf5 / from_hdf5 (h5py is not installed: the HDF5 route cannot be executed)",
                           "unyt_dask_array.__reduce__ (dask is not installed)",
-                          "pickle protocol 0/1 of a bare Unit (copyreg refuses to write: __slots__ without __getstate__)",
+                          "pickle protocols 0 and 1 (writing is refused: SymPy raises NotImplementedError for arrays, copyreg raises TypeError for a bare Unit / "
+                          "registry with cached units; there is nothing to restore - the refusals are counted under notes)",
                           "_correct_old_unit_registry 4-tuple branch (registries written by unyt < 2.0 / yt 3: no such file can be produced by this tree)"]}
